@@ -24,13 +24,15 @@ def unhex : List Char → List Nat
   | a :: b :: rest => (hexVal a * 16 + hexVal b) :: unhex rest
   | _ => []
 
-def tablesAll : List (String × List Desc) :=
-  [(Gen.can.tableName, Gen.can.table), (Gen.canBrief.tableName, Gen.canBrief.table), (Gen.vss.tableName, Gen.vss.table)]
+def tablesAll : List (String × List Desc) := Gen.formats.map fun g => (g.tableName, g.table)
 
-def tblAddr (name : String) : Nat :=
-  match tablesAll.findIdx? (fun t => t.1 == name) with
+/-- Table names are `static` per translation unit (three files call theirs `fieldDescriptors`), so a
+    table is resolved through the SOURCE FILE of the function under test: every name the function
+    mentions is its own file's table.  No file: the ad-hoc one-row table of the raw Utils cases. -/
+def tblAddr (file : String) (_name : String) : Nat :=
+  match Gen.formats.findIdx? (fun g => g.file == file) with
   | some i => 8192 + 1024 * i
-  | none => 4096           -- the ad-hoc one-row table of the raw Utils cases
+  | none => 4096
 
 /-- read-only data: a one-row table at 4096 (raw cases) and the regenerated tables from 8192 on -/
 def romAll (row : Nat × Nat × Nat) : Nat → Byte := fun a =>
@@ -44,17 +46,17 @@ def romAll (row : Nat × Nat × Nat) : Nat → Byte := fun a =>
       | none => 0
     | none => 0
 
-/-- one line: `fn;a0 a1 ...;q o b;bufhex;srchex` — buffer at 65536, source buffer at 1048576 -/
+/-- one line: `fn;a0 a1 ...;q o b;bufhex;srchex;file` — buffer at 65536, source buffer at 1048576 -/
 def runLine (line : String) : String :=
   match line.splitOn ";" with
-  | [fn, args, row, bufh, srch] =>
+  | [fn, args, row, bufh, srch, file] =>
     let nums := fun (s : String) => (s.splitOn " ").filterMap (fun t => t.toNat?)
     let r := nums row
     let bs := (unhex bufh.toList).toArray
     let src := (unhex srch.toList).toArray
     let m : Mem := fun a => if 1048576 ≤ a then Fin.ofNat 256 (src.getD (a - 1048576) 0)
       else if 65536 ≤ a then Fin.ofNat 256 (bs.getD (a - 65536) 0) else 0
-    let env : Env := { prog := Gen.Cir.prog .little, glob := tblAddr, rom := romAll (r.getD 0 0, r.getD 1 0, r.getD 2 0),
+    let env : Env := { prog := Gen.Cir.prog .little, glob := tblAddr file, rom := romAll (r.getD 0 0, r.getD 1 0, r.getD 2 0),
                        ext := fun _ _ => none, endian := .little }
     match callFn env 200 fn (nums args) ⟨m, []⟩ with
     | some res => s!"R {res.1} {hexOf (res.2.mem.read 65536 bs.size)}"
@@ -72,12 +74,12 @@ def main : IO Unit := do loop (← IO.getStdin)
 
 
 def run_lines(lines, name):
-    """lines: list of (fn, [args], (q,o,b) or None, buffer bytes, source bytes).  Returns per line
-    (value str, hex dump str)."""
+    """lines: list of (fn, [args], (q,o,b) or None, buffer bytes, source bytes[, source file of fn]).
+    Returns per line (value str, hex dump str)."""
     path = os.path.join(common.BUILD, name + ".lean")
     open(path, "w").write(SCRIPT)
-    txt = "".join("%s;%s;%s;%s;%s\n" % (fn, " ".join(str(a) for a in args), " ".join(str(x) for x in (row or (0, 0, 0))),
-                                        bytes(buf).hex(), bytes(src).hex()) for fn, args, row, buf, src in lines)
+    txt = "".join("%s;%s;%s;%s;%s;%s\n" % (l[0], " ".join(str(a) for a in l[1]), " ".join(str(x) for x in (l[2] or (0, 0, 0))),
+                                           bytes(l[3]).hex(), bytes(l[4]).hex(), l[5] if len(l) > 5 else "-") for l in lines)
     r = subprocess.run(["lake", "env", "lean", "--run", path], cwd=common.LEAN, input=txt, capture_output=True, text=True, timeout=1800)
     res = []
     for line in r.stdout.splitlines():
@@ -103,4 +105,4 @@ def utils_cases(cases):
 def mem_cases(cases, name="cirrun_mem"):
     """cases: list of (function name, [args], buffer bytes, source bytes); the buffer is at 65536, the
     source buffer at 1048576.  Returns per case (value str, hex dump str)."""
-    return run_lines([(fn, args, None, buf, src) for fn, args, buf, src in cases], name)
+    return run_lines([(c[0], c[1], None, c[2], c[3], c[4] if len(c) > 4 else "-") for c in cases], name)
